@@ -1,0 +1,65 @@
+//go:build verif
+
+package engine
+
+import (
+	"github.com/wundergraph/graphql-go-tools/v2/pkg/engine/plan"
+	"github.com/wundergraph/graphql-go-tools/v2/pkg/engine/postprocess"
+	"github.com/wundergraph/graphql-go-tools/v2/pkg/engine/resolve"
+)
+
+// Accessors for the verification harness (build tag verif only). They expose what the
+// package's own tests reach through unexported fields; they add no behaviour.
+
+// VerifWithResolveContext runs fn on the resolve.Context of the execution after the engine has
+// populated it (request, variables, remap table) and before planning/resolving, e.g. to call
+// SetResponseCache, SetRateLimiter or to set LoaderHooks / ExecutionOptions.
+func VerifWithResolveContext(fn func(ctx *resolve.Context)) ExecutionOptions {
+	return func(ctx *internalExecutionContext) {
+		fn(ctx.resolveContext)
+	}
+}
+
+// VerifWithPostProcessorOptions replaces the postprocessor of this execution. The plan cache is
+// keyed by the operation only, so use one engine per option set (or VerifPurgePlanCache).
+func VerifWithPostProcessorOptions(opts ...postprocess.ProcessorOption) ExecutionOptions {
+	return func(ctx *internalExecutionContext) {
+		ctx.postProcessor = postprocess.NewProcessor(opts...)
+	}
+}
+
+// VerifPlannerConfig gives access to the planner configuration of an engine configuration
+// (MinifySubgraphOperations, EnableMultiFetch, DisableResolveFieldPositions, ...). Call before NewExecutionEngine.
+func (e *Configuration) VerifPlannerConfig() *plan.Configuration {
+	return &e.plannerConfig
+}
+
+// VerifResolver returns the resolver of the engine.
+func (e *ExecutionEngine) VerifResolver() *resolve.Resolver {
+	return e.resolver
+}
+
+// VerifLastPlan returns the most recently used plan of the plan cache (the plan of the operation
+// that was executed last when executions are sequential), or nil.
+func (e *ExecutionEngine) VerifLastPlan() plan.Plan {
+	keys := e.executionPlanCache.Keys()
+	if len(keys) == 0 {
+		return nil
+	}
+	v, ok := e.executionPlanCache.Peek(keys[len(keys)-1])
+	if !ok {
+		return nil
+	}
+	p, _ := v.(plan.Plan)
+	return p
+}
+
+// VerifPlanCacheLen returns the number of cached plans.
+func (e *ExecutionEngine) VerifPlanCacheLen() int {
+	return e.executionPlanCache.Len()
+}
+
+// VerifPurgePlanCache empties the plan cache.
+func (e *ExecutionEngine) VerifPurgePlanCache() {
+	e.executionPlanCache.Purge()
+}
